@@ -28,12 +28,22 @@ def held_messages(tier="quick"):
     return C08.fault_scenarios(tier=tier, prop=PROP)
 
 
+def held_during_release():
+    """'every gateway state' includes the one in which a release is under way: a send that parks while the listener is suspended
+    in a write of the release is held like any other and goes out at the next wake (bounded: C09's schedules, read for C12 -
+    after the second wake the last value sent for every key has been written)."""
+    from . import C09
+    return C09.native_sweep()
+
+
 def replay(world, ob):
     r = hn.replay(PROP, world, ob)
     if r.get("confirmed"):
         return r
-    if "_handle_sleep_buffer" in ob.get("unit", ""):
+    if "_handle_sleep_buffer" in ob.get("unit", "") or "handle_set" in ob.get("unit", ""):
         f, n = held_messages("thorough")
+        if not f:
+            f, n = held_during_release()
         if f:
             return dict(f, confirmed=True, native_runs=n)
     found = hn.search(PROP, hn.VERS, seed=3, budget=1500)
@@ -45,7 +55,10 @@ def bounded(world, tier, seed, rep):
     f, n = held_messages(tier)
     r["evaluations"] += n
     r["scope"] += "; plus every subset (size <= 2) of failing write attempts over 1-4 held commands for two nodes and four wakes, versions 2.0-2.2"
-    r["native_failure"] = r.get("native_failure") or f
+    f2, n2 = held_during_release()
+    r["evaluations"] += n2
+    r["scope"] += "; plus 14 schedules per 2.x version in which a send parks while the release is suspended in a write, then a second wake"
+    r["native_failure"] = r.get("native_failure") or f or f2
     return r
 
 
@@ -54,6 +67,10 @@ def bounded_search(world, unit_name):
         f, n = held_messages("thorough")
         if f:
             return [dict(f, clause="C12/native-fault-enumeration")]
+    if "_handle_sleep_buffer" in unit_name or "handle_set" in unit_name:
+        f, n = held_during_release()
+        if f:
+            return [dict(f, clause="C12/native-held-during-release")]
     found = hn.search(PROP, hn.VERS, seed=0, budget=1500)
     return [dict(found, clause="C12/native-differential")] if found else []
 
